@@ -401,9 +401,10 @@ pub fn opts(small_zooms: bool) -> BoxedStrategy<Opts> {
         any::<bool>(),
         source_kind(),
         prop::bool::weighted(0.7),
+        prop::bool::weighted(0.35),
     )
         .prop_map(
-            |(compress, items_per_slot, block_size, zoom, channel_size, inmemory, threads, multipass, source, sorted)| Opts {
+            |(compress, items_per_slot, block_size, zoom, channel_size, inmemory, threads, multipass, source, sorted, no_final_newline)| Opts {
                 compress,
                 items_per_slot,
                 block_size,
@@ -414,6 +415,7 @@ pub fn opts(small_zooms: bool) -> BoxedStrategy<Opts> {
                 multipass,
                 source,
                 sorted_chroms: sorted,
+                no_final_newline,
             },
         )
         .boxed()
@@ -526,6 +528,10 @@ pub fn label_opts(o: &Opts, obs: &mut crate::runner::Obs) {
         SourceKind::SerialText => "src=serial-text",
         SourceKind::ParallelText => "src=parallel-text",
     });
+    obs.label_if(
+        o.no_final_newline && matches!(o.source, SourceKind::SerialText | SourceKind::ParallelText),
+        "text-without-final-newline",
+    );
     obs.label(match o.threads {
         0 => "rt=current",
         1 => "rt=multi1",
